@@ -289,7 +289,7 @@ fn build_threaded_choice_block_no_label(
     };
 
     let mut choice_labels = BTreeMap::new();
-    let group_path = joined_path(&scope.path, group_index);
+    let group_path = joined_path(&scope.path, group_index + scope.param_offset);
     for (offset, choice) in emit_choices.iter().enumerate() {
         if let Some(label) = &choice.label {
             let label_target =
